@@ -3,7 +3,7 @@
    Over whole schedules of the engine model Engine/RE.v, for all plan coalgebras and device oracles.
    Built on Proofs/RE_Small.v (dstep), Proofs/RE_Inv.v (reachable-state invariant), Proofs/RE_Shape.v. *)
 From Coq Require Import List String ZArith Bool Arith Lia.
-From BV Require Import Engine.RE Engine.REInst Proofs.RE_Small Proofs.RE_Inv Proofs.RE_Ctl Proofs.RE_Shape.
+From BV Require Import Engine.RE Engine.REInst Proofs.RE_Small Proofs.RE_Inv Proofs.RE_Ctl Proofs.RE_Hold Proofs.RE_Shape.
 From BV Require Proofs.RE_Exit Proofs.RE_DocsCor Proofs.RE_DocsInv.
 Import ListNotations.
 (* file-local implicit arguments for the model's functions (the model file itself is untouched) *)
@@ -806,6 +806,10 @@ Qed.
 Definition raises (r : tres) : bool := match r with TRaise ECancelled => false | TRaise _ => true | TReturn _ => false end.
 Definition is_task (e : event) : bool := match e with EvTask => true | _ => false end.
 
+Lemma no_bad_nb (l : list obs) : no_bad l = true -> nb l.
+Proof.
+  unfold no_bad, nb. rewrite forallb_forall, Forall_forall. intros H x Hx. specialize (H x Hx). destruct x; try exact I. discriminate H.
+Qed.
 Lemma no_bad1 (l : list obs) : nb l -> ~ In (OBad 1) l.
 Proof. intros H Hin. unfold nb in H. rewrite Forall_forall in H. exact (H _ Hin). Qed.
 
@@ -820,7 +824,7 @@ Theorem failed_pause_end_to_end d paus stag rec evs1 req evs2 :
   state s1 = Running -> cache s1 = None -> exc_slot s1 = None ->
   (pc s1 = PcSleep0 \/ exists k, pc s1 = PcCmd k) ->
   forallb cont_ev evs2 = true ->
-  nb (o1 ++ o) ->
+  no_bad (o1 ++ o) = true ->
   (* never paused *)
   Forall np o /\
   (* the first thing any plan is handed after the request is FailedPause, before any message is processed; it goes to
@@ -840,7 +844,7 @@ Theorem failed_pause_end_to_end d paus stag rec evs1 req evs2 :
                     (raises r = false -> out = OutInterrupted) /\
                     (forall e, r = TRaise e -> e <> ECancelled -> out = OutRaise e))).
 Proof.
-  intros s0 s1 o1 s3 o Hreq Hs Hc He Hpc Hcont Hnb.
+  intros s0 s1 o1 s3 o Hreq Hs Hc He Hpc Hcont Hnb. apply no_bad_nb in Hnb.
   apply nb_app in Hnb. destruct Hnb as [Hnb1 Hnb].
   pose proof (RE_Inv.reach_Inv P presume plan_of D dev d paus stag rec evs1 (no_bad1 _ Hnb1)) as HI.
   fold s0 in HI. fold s1 in HI.
